@@ -295,6 +295,11 @@ let parse_op (toks : string list) : op option =
       if e < 4 || e > 7 then raise (Bad_case "entry");
       Some (ORender (n_of_int e, str_tok x, parse_json_tok j, failat_tok fa))
   | [ "rthr"; _; _; x; j ] -> Some (ORender (n_of_int 0, str_tok x, parse_json_tok j, None))
+  | [ "rbad"; e; x ] ->
+      let e = int_tok e in
+      if e < 0 || e > 7 then raise (Bad_case "entry");
+      (* data that cannot be serialized has no JSON value: the render op only keeps the observations aligned *)
+      Some (ORender (n_of_int e, str_tok x, JNull, None))
   | [ "cmp"; x ] -> Some (OCmp (str_tok x))
   | [ "tok"; r; x ] -> (
       match rule_of_name r with
@@ -446,6 +451,14 @@ let run_case_line (line : string) : string =
                       let t = obs_text o b in
                       (* threads cannot be exhibited by the model: one sequential render stands for all *)
                       let t = if SL.hd g = "rthr" then "T:1:" ^ t else t in
+                      (* PROTOCOL.md §9: every entry point rejects unserializable data before rendering anything *)
+                      let t =
+                        if SL.hd g = "rbad" then
+                          "R:err:SerdeError:-:-:-:-:"
+                          ^ (match SL.nth g 1 with "2" | "3" | "6" | "7" -> "x" | _ -> "-")
+                          ^ ":x"
+                        else t
+                      in
                       zip r obs' (t :: acc)
                   | [] -> raise (Bad_case "obs underflow"))
                 else zip r obs acc
